@@ -144,7 +144,7 @@ func c16Observe(c *core.Ctx, mask int, other string, want rules.CosmeticOption) 
 	judge("NewMatchingResult(with the same rules as referrer rules)", rules.NewMatchingResult(append([]*rules.NetworkRule(nil), rs...), append([]*rules.NetworkRule(nil), rs...)).GetCosmeticOption())
 
 	// Path 2: the full engine on a document request.
-	list := []string{text, "##.generic-banner", "example.org##.specific-banner"}
+	list := []string{text, "##.generic-banner", "~excluded.example##.generic-with-exclusion", "example.org##.specific-banner", "example.*##.specific-wildcard", "other.example##.not-here"}
 	if other != "" {
 		list = append(list, other)
 	}
@@ -161,10 +161,16 @@ func c16Observe(c *core.Ctx, mask int, other string, want rules.CosmeticOption) 
 
 	// Path 3: decoded by GetCosmeticResult.
 	cr := eng.GetCosmeticResult("example.org", got)
-	hasGeneric := len(cr.ElementHiding.Generic) > 0
-	hasSpecific := len(cr.ElementHiding.Specific) > 0
 	wantCSS := want&rules.CosmeticOptionCSS != 0
 	wantGeneric := wantCSS && want&rules.CosmeticOptionGenericCSS != 0
+	hasGeneric := util.EqualStrings(util.Sorted(cr.ElementHiding.Generic), []string{".generic-banner", ".generic-with-exclusion"})
+	hasSpecific := util.EqualStrings(util.Sorted(cr.ElementHiding.Specific), []string{".specific-banner", ".specific-wildcard"})
+	if !wantGeneric {
+		hasGeneric = len(cr.ElementHiding.Generic) > 0
+	}
+	if !wantCSS {
+		hasSpecific = len(cr.ElementHiding.Specific) > 0
+	}
 	c.Eval(1)
 	if hasGeneric != wantGeneric || hasSpecific != wantCSS {
 		ok = false
